@@ -388,7 +388,9 @@ def pick(prog, run, ci, f):
         # pops of the frequency list with an index: directly, or inside an own private helper (index expressed in the handler's terms)
         pops = []
         for n in ast.walk(h.node):
-            if isinstance(n, ast.Call) and isinstance(n.func, ast.Attribute) and n.func.attr == "pop" and n.args and self_attr(n.func.value, MAIN):
+            if isinstance(n, ast.Call) and isinstance(n.func, ast.Attribute) and n.func.attr == "pop" and n.args \
+                    and (self_attr(n.func.value, MAIN) or (isinstance(n.func.value, ast.Name) and self_attr(astq.expr_at(h, n, n.func.value), MAIN))):
+                # (the list itself or a local name for it: `lst = self.sel_freq; lst.pop(i)`)
                 iv0 = astq.expr_at(h, n, n.args[0])
                 if isinstance(iv0, ast.Name) and astq.reaching_values(h, n, iv0.id):
                     pops.extend((n, v_) for v_ in astq.reaching_values(h, n, iv0.id))
@@ -425,8 +427,11 @@ def pick(prog, run, ci, f):
                     flat.append((n, x_))
         pops = [(n, iv) for n, iv in flat if not _is_last(iv)]
         if not pops:
-            has_any = any(isinstance(n, ast.Call) and isinstance(n.func, ast.Attribute) and n.func.attr in ("pop", "remove") or isinstance(n, ast.Delete) for n in ast.walk(h.node))
-            run.ob("R-pick", h.qual, "deselect-nearest", None if not has_any else False, "no pop(i) on the frequency list", witness="missing", file=f, node=h.node)
+            removers = [n for n in ast.walk(h.node) if (isinstance(n, ast.Call) and isinstance(n.func, ast.Attribute) and n.func.attr in ("pop", "remove")) or isinstance(n, ast.Delete)]
+            # "no pop on the frequency list" is a fact only when every removal in the handler is from a list we can name
+            named = all(isinstance(n, ast.Call) and self_attr(astq.expr_at(h, n, n.func.value)) for n in removers)
+            run.ob("R-pick", h.qual, "deselect-nearest", False if removers and named else None, "no pop(i) on the frequency list" + ("" if removers and named else " could be identified"),
+                   witness="missing", file=f, node=h.node)
             continue
         for pnode, iv in pops:
             inner = iv
@@ -436,7 +441,21 @@ def pick(prog, run, ci, f):
             d = astq.strip_abs(prog, h, arr) if arr is not None else None
             ok = None
             if isinstance(d, ast.BinOp) and isinstance(d.op, ast.Sub):
-                ok = "self.sel_freq" in astq.src(d.left) and "xdata" in astq.src(d.right)
+                right = astq.src(d.right)
+                stale = ""
+                if "xdata" not in right and self_attr(d.right):
+                    # the click position read back from an attribute: it is this click's only if the handler stored it on the way here
+                    kind, val = astq.dominating_attr_store(h, pnode, right)
+                    if kind == "value":
+                        right = astq.src(val)
+                    elif kind == "none":
+                        stale = f" - `{right}` is not set on the way to this removal: it still holds the position of an earlier pick"
+                    else:
+                        right = None
+                ok = None if right is None else ("self.sel_freq" in astq.src(d.left) and "xdata" in right)
+                if stale:
+                    run.ob("R-pick", h.qual, "deselect-nearest removes the entry nearest in frequency to the click", False, f"index `{astq.src(iv, 80)}`{stale}", witness=astq.src(iv, 80), file=f, node=pnode)
+                    continue
             elif arr is not None or astq.argreduce(prog, h, inner, astq.ARGMAX) is not None:
                 ok = False
             run.ob("R-pick", h.qual, "deselect-nearest removes the entry nearest in frequency to the click", ok, f"index `{astq.src(iv, 80)}`", witness=astq.src(iv, 80), file=f, node=pnode)
